@@ -239,7 +239,7 @@ theorem parseURL_http (host uri : Bytes) (hh : host.isEmpty = true ∨ hostOK ho
 theorem entity_buildReq (cfg : Hdrs) (e : Entity) (hk : entityKnown e = true) :
     ∃ a, entityAmmo e = .ok a ∧ buildReq (a.withCfg cfg) = some (entityReq cfg e.host e.method e.uri e.tag e.body e.headers) := by
   simp only [entityKnown, Bool.and_eq_true, Bool.or_eq_true] at hk
-  obtain ⟨⟨hu, hh⟩, hm⟩ := hk
+  obtain ⟨⟨⟨hu, hh⟩, hm⟩, _⟩ := hk
   refine ⟨{ method := e.method, url := httpPrefix ++ e.host ++ e.uri, body := e.body, tag := e.tag,
              hdrs := e.headers.foldl (fun h kv => hset h kv.1 kv.2) [] }, by simp [entityAmmo, hm], ?_⟩
   simp only [Ammo.withCfg, buildReq, parseURL_http e.host e.uri hh hu, entityReq, mkReq]
